@@ -18,7 +18,7 @@ ID = 'C17'
 LEVEL = 'exploration'
 RULE = ('Runs are (a) evaluation histories on the real Fe-Cr-Ni database: 4-12 evaluations over 3-6 seeded points (single-phase FCC, single-phase BCC, two-phase), random order with repeats, '
         'rule and post-process mode drawn per evaluation (mode changes while sharing one hash table), cache on/off/cleared; (b) synthetic sets: 20-60 seeded (mobility, fraction) sets with 1-4 phases, '
-        'mobilities over up to six decades, fractions incl. simplex vertices and zeros, all five rules, permutations. Non-trivial = at least 4 compared evaluations incl. a two-phase point (a), at least 20 sets (b); '
+        'mobilities over up to six decades, fractions incl. simplex vertices and zeros, all five rules, permutations. Mobility variants: both phases, FCC only, BCC only; exclude lists name unstable / unknown phases before and after the stable one. Non-trivial = at least 4 compared evaluations incl. a two-phase point (a), at least 20 sets (b); '
         'distinct = distinct record digest; signature = (kind, modes used, regions visited, cache use).')
 ASSUMPTIONS = ['Bounds are asserted for fully defined mobility sets only (the property says "defined phase mobilities"), at 1e-6 relative for spreads up to six decades; for sets with undefined (-1) entries only '
                'absence of exceptions, idempotence and permutation invariance are asserted.',
